@@ -12,17 +12,17 @@ UNITS_LOCAL = {"C11": [
     Unit("views", ["harness/C11_views.cpp"],
          flags=ASAN, env=ASAN_ENV, engine="seqmc", opt="-O1",
          budget={"quick": 100, "thorough": 1000},
-         rule="every history of length <= 4 (thorough 5) over 34 operations on two ArrayView<int> slots (construct from vector/array/pointer ranges/nullptr, make_ArrayView, reset(), reset(p,n), assign vector/array, copy-construct, copy-assign, write through the view, destroy), two heap source vectors (replace by a fresh buffer of 0/3/4 elements, write, destroy) and a std::array; the same with depth-1 for uint8_t and double. distinct = distinct (last operation, per-view size/null-ness/readability) observations",
+         rule="every history of length <= 4 (thorough 5) over 36 operations on two ArrayView<int> slots (construct from vector/array/pointer ranges/nullptr, make_ArrayView, reset(), reset(p,n), reset onto a sub-range of the data the view already shows, construction onto a sub-range of the other view, assign vector/array, copy-construct, copy-assign, write through the view, destroy), two heap source vectors (replace by a fresh buffer of 0/3/4 elements, write, destroy) and a std::array; the same with depth-1 for uint8_t and double. distinct = distinct (last operation, per-view size/null-ness/readability) observations",
          assumptions=_COMMON_ASSUMPTIONS),
     Unit("owned", ["harness/C11_owned.cpp"],
          flags=ASAN, env=ASAN_ENV, engine="seqmc", opt="-O1",
          budget={"quick": 100, "thorough": 1000},
-         rule="every history of length <= 4 (thorough 5) over 41 operations on two OwnedArray<int> slots (construct from vector/array/pointer ranges/nullptr, assign vector/array, reset(), reset(p,n), resize(n,val) for n in {0,1,3,9} incl. growth that reallocates, copy-construct, copy-assign, self-assign, write an element, destroy) and the source buffers (replace/write/destroy); depth-1 for uint8_t and double. Owning arrays are compared with the model after their source was written, replaced or destroyed and after the array they were copied from was destroyed/resized/written. distinct = distinct (last operation, per-array size/null-ness) observations",
+         rule="every history of length <= 4 (thorough 5) over 46 operations on two OwnedArray<int> slots (ALIASING arguments: resize(size+1 / size+8, a[0] / a[size-1]) with the fill value inside the array (growth within and beyond the capacity), reset(a.data()+k, m) with a range inside the array itself, reset / construction from a range inside the other OwnedArray, self-assignment; construct from vector/array/pointer ranges/nullptr, assign vector/array, reset(), reset(p,n), resize(n,val) for n in {0,1,3,9} incl. growth that reallocates, copy-construct, copy-assign, self-assign, write an element, destroy) and the source buffers (replace/write/destroy); depth-1 for uint8_t and double. Owning arrays are compared with the model after their source was written, replaced or destroyed and after the array they were copied from was destroyed/resized/written. distinct = distinct (last operation, per-array size/null-ness) observations",
          assumptions=_COMMON_ASSUMPTIONS),
     Unit("fixed", ["harness/C11_fixed.cpp"],
          flags=ASAN, env=ASAN_ENV, engine="seqmc", opt="-O1",
          budget={"quick": 100, "thorough": 1000},
-         rule="every history of length <= 4 (thorough 5) over 45 operations on two shared_ptr<FixedArray<int>> handles (default/size/pointer incl. null/vector incl. empty/array constructors, assign vector/array, copy-construct, copy-assign, write an element, drop the handle), two FixedArrayView<int> slots ((offset,size) sub-ranges (0,size),(1,size-1),(size,0) of either array, copy, write through the view, destroy) and the source buffers; depth-1 for uint8_t and double. A view is read after the handle it was made from was dropped and after its FixedArray was re-assigned (the class comment promises it keeps the data alive); an element is not written while two different FixedArray objects share the buffer (whether a copy sees later writes is not specified). distinct = distinct (last operation, per-wrapper size/null-ness) observations",
+         rule="every history of length <= 4 (thorough 5) over 48 operations on two shared_ptr<FixedArray<int>> handles (ALIASING arguments: self-assignment, assignment from a vector built over its own data, construction from a range inside the array it replaces / inside the other array, a view re-assigned onto a sub-range of the array it views; default/size/pointer incl. null/vector incl. empty/array constructors, assign vector/array, copy-construct, copy-assign, write an element, drop the handle), two FixedArrayView<int> slots ((offset,size) sub-ranges (0,size),(1,size-1),(size,0) of either array, copy, write through the view, destroy) and the source buffers; depth-1 for uint8_t and double. A view is read after the handle it was made from was dropped and after its FixedArray was re-assigned (the class comment promises it keeps the data alive); an element is not written while two different FixedArray objects share the buffer (whether a copy sees later writes is not specified). distinct = distinct (last operation, per-wrapper size/null-ness) observations",
          assumptions=_COMMON_ASSUMPTIONS + ["elements of a FixedArray(size) are uninitialised: they are read (for ASan) but not compared until written"]),
     Unit("dataview", ["harness/C11_dataview.cpp"],
          flags=ASAN, env=ASAN_ENV, engine="seqmc", opt="-O1",
